@@ -265,10 +265,12 @@ func (m *model) linkDump() map[string][]string {
 // ---- one case -----------------------------------------------------------------------
 
 var (
-	ownerPoolC  = []string{"a_b" + ksep + "c", "a" + ksep + "b_c", "a" + ksep + "b", "x" + ksep + "y", "x_y" + ksep + "z", "x" + ksep + "y_z"}
-	targetPoolC = []string{"p_q" + ksep + "r", "p" + ksep + "q_r", "p" + ksep + "q", "m" + ksep + "n", "m_n" + ksep + "o", "m" + ksep + "n_o", "s" + ksep + "t"}
-	modeNames   = []string{"single", "two_values", "slice"}
-	umNames     = []string{"scoped", "unscoped", "mixed"}
+	ownerPoolC     = []string{"a_b" + ksep + "c", "a" + ksep + "b_c", "a" + ksep + "b", "x" + ksep + "y", "x_y" + ksep + "z", "x" + ksep + "y_z"}
+	targetPoolC    = []string{"p_q" + ksep + "r", "p" + ksep + "q_r", "p" + ksep + "q", "m" + ksep + "n", "m_n" + ksep + "o", "m" + ksep + "n_o", "s" + ksep + "t"}
+	ownerPoolFree  = []string{"a_b" + ksep + "c", "a" + ksep + "b", "x" + ksep + "y", "x_y" + ksep + "z", "k" + ksep + "l"}
+	targetPoolFree = []string{"p_q" + ksep + "r", "p" + ksep + "q", "m" + ksep + "n", "m_n" + ksep + "o", "s" + ksep + "t", "s t" + ksep + "u", "v" + ksep + "w"}
+	modeNames      = []string{"single", "two_values", "slice"}
+	umNames        = []string{"scoped", "unscoped", "mixed"}
 )
 
 func collide(keys []string) bool {
@@ -292,15 +294,13 @@ type kase struct {
 	owners   []string // all owner keys of the operated owner table
 	vals     []*ownerVal
 	slice    reflect.Value // *[]Owner in slice mode
-	sliceLit string
-	universe []string // composite: unused target keys
-	noShare  bool     // belongs-to with Unscoped steps: a target is never linked to two owners
+	universe []string      // composite: unused target keys
+	noShare  bool          // belongs-to with Unscoped steps: a target is never linked to two owners
 	newSeq   int
 	calls    []string
 	seedDump map[string]interface{}
 	shape    []string
 	changes  int
-	usedKeys map[string]bool // composite: every target key that appeared in the case
 }
 
 func (k *kase) seed() {
@@ -311,12 +311,17 @@ func (k *kase) seed() {
 	}
 	H.SQL.Exec("DELETE FROM sqlite_sequence")
 	k.m = &model{spec: s, links: map[string]map[string]bool{}, recs: map[string]string{}, soft: map[string]bool{}}
-	k.usedKeys = map[string]bool{}
 	// owners
+	opool, tpool := ownerPoolC, targetPoolC
+	if s.composite && r.Bool() {
+		// half of the composite cases use a universe without colliding keys
+		opool, tpool = ownerPoolFree, targetPoolFree
+		k.c.Inc("composite_cases_collision_free_universe")
+	}
 	if s.composite {
-		p := r.Perm(len(ownerPoolC))
+		p := r.Perm(len(opool))
 		for i := 0; i < 4; i++ {
-			k.owners = append(k.owners, okey("orgs", ownerPoolC[p[i]]))
+			k.owners = append(k.owners, okey("orgs", opool[p[i]]))
 		}
 	} else {
 		p := r.Perm(4)
@@ -335,13 +340,12 @@ func (k *kase) seed() {
 	// existing target records
 	ne := r.Range(3, 6)
 	if s.composite {
-		p := r.Perm(len(targetPoolC))
+		p := r.Perm(len(tpool))
 		for i, j := range p {
 			if i < ne {
-				k.m.recs[targetPoolC[j]] = fmt.Sprintf("e%d", i+1)
-				k.usedKeys[targetPoolC[j]] = true
+				k.m.recs[tpool[j]] = fmt.Sprintf("e%d", i+1)
 			} else {
-				k.universe = append(k.universe, targetPoolC[j])
+				k.universe = append(k.universe, tpool[j])
 			}
 		}
 	} else {
@@ -386,35 +390,41 @@ func (k *kase) seed() {
 		}
 	}
 	// owner values
-	mk := func(v reflect.Value, o string) {
+	mk := func(v reflect.Value, o string) string {
 		var boss *int64
+		lit := s.ownerLit(o)
 		if s.store == fkOwner {
 			for t := range k.m.links[o] {
 				b := atoi(t)
 				boss = &b
+				// the value is a loaded record (scalar columns set, relation field not preloaded)
+				if s.fkField == "BossID" {
+					lit = strings.TrimSuffix(lit, "}") + ", BossID:&[int64]{" + t + "}[0]}"
+				} else {
+					lit = strings.TrimSuffix(lit, "}") + ", " + s.fkField + ":" + t + "}"
+				}
 			}
 		}
 		s.setOwner(v, o, "o-"+o, boss)
+		return lit
 	}
 	if k.mode == 2 {
 		k.slice = reflect.New(reflect.SliceOf(s.ownerT))
 		k.slice.Elem().Set(reflect.MakeSlice(reflect.SliceOf(s.ownerT), nOp, nOp))
-		k.sliceLit = "owners"
 		lits := []string{}
 		for i := 0; i < nOp; i++ {
 			e := k.slice.Elem().Index(i)
-			mk(e, k.owners[i])
+			lit := mk(e, k.owners[i])
 			k.vals = append(k.vals, &ownerVal{ok: k.owners[i], ptr: e.Addr(), lit: fmt.Sprintf("&owners[%d]", i), foreign: seeded[k.owners[i]], mem: map[string]bool{}})
-			lits = append(lits, strings.TrimPrefix(strings.TrimPrefix(s.ownerLit(k.owners[i]), "User"), "Org"))
+			lits = append(lits, strings.TrimPrefix(strings.TrimPrefix(lit, "User"), "Org"))
 		}
-		k.sliceLit = "owners"
 		k.calls = append(k.calls, fmt.Sprintf("owners := []%s{%s}", s.ownerT.Name(), strings.Join(lits, ", ")))
 	} else {
 		for i := 0; i < nOp; i++ {
 			p := reflect.New(s.ownerT)
-			mk(p.Elem(), k.owners[i])
+			lit := mk(p.Elem(), k.owners[i])
 			k.vals = append(k.vals, &ownerVal{ok: k.owners[i], ptr: p, lit: fmt.Sprintf("&u%d", i+1), foreign: seeded[k.owners[i]], mem: map[string]bool{}})
-			k.calls = append(k.calls, fmt.Sprintf("u%d := %s", i+1, s.ownerLit(k.owners[i])))
+			k.calls = append(k.calls, fmt.Sprintf("u%d := %s", i+1, lit))
 		}
 	}
 	k.seedDump = map[string]interface{}{"owner_rows": all, "target_records": copyMap(k.m.recs), "links(owner->targets)": k.m.linkDump()}
@@ -440,7 +450,7 @@ func copyMap(m map[string]string) map[string]string {
 func (k *kase) pickTargets(o string, n int, forDelete bool, allowNew bool, avoid map[string]bool, noOther bool) []*targ {
 	r, m := k.r, k.m
 	var out []*targ
-	for tries := 0; len(out) < n && tries < 60; tries++ {
+	for len(out) < n {
 		var linked, free, other []string
 		for _, t := range sortedKeys(boolSet(m.recs)) {
 			if avoid[t] {
@@ -458,47 +468,45 @@ func (k *kase) pickTargets(o string, n int, forDelete bool, allowNew bool, avoid
 				}
 			}
 		}
-		classes := []string{"new", "new", "new", "free", "free", "free", "linked", "linked", "other", "other", "dup"}
+		var dupCands []*targ
+		for _, p := range out {
+			if p.class != "new" {
+				dupCands = append(dupCands, p)
+			}
+		}
+		weighted := []string{"new", "new", "new", "free", "free", "free", "linked", "linked", "other", "other", "dup"}
 		if forDelete {
-			classes = []string{"linked", "linked", "linked", "linked", "linked", "free", "other", "other", "dup"}
+			weighted = []string{"linked", "linked", "linked", "linked", "linked", "free", "other", "other", "dup"}
+		}
+		avail := map[string]bool{"new": allowNew && (!k.spec.composite || len(k.universe) > 0), "free": len(free) > 0,
+			"linked": len(linked) > 0, "other": len(other) > 0, "dup": len(dupCands) > 0}
+		var classes []string
+		for _, cl := range weighted {
+			if avail[cl] {
+				classes = append(classes, cl)
+			}
+		}
+		if len(classes) == 0 {
+			return out
 		}
 		cl := core.Pick(r, classes)
 		var t *targ
 		switch cl {
 		case "new":
-			if !allowNew {
-				continue
-			}
 			k.newSeq++
 			if k.spec.composite {
-				if len(k.universe) == 0 {
-					continue
-				}
 				i := r.Intn(len(k.universe))
 				t = &targ{key: k.universe[i], name: fmt.Sprintf("n%d", k.newSeq), class: "new"}
 				k.universe = append(k.universe[:i], k.universe[i+1:]...)
-				k.usedKeys[t.key] = true
 			} else {
 				t = &targ{name: fmt.Sprintf("n%d", k.newSeq), class: "new"}
 			}
 		case "free", "linked", "other":
 			pool := map[string][]string{"free": free, "linked": linked, "other": other}[cl]
-			if len(pool) == 0 {
-				continue
-			}
 			key := core.Pick(r, pool)
 			t = &targ{key: key, name: m.recs[key], class: cl, keyOnly: r.Chance(1, 5)}
 		case "dup":
-			var cands []*targ
-			for _, p := range out {
-				if p.class != "new" {
-					cands = append(cands, p)
-				}
-			}
-			if len(cands) == 0 {
-				continue
-			}
-			p := core.Pick(r, cands)
+			p := core.Pick(r, dupCands)
 			t = &targ{key: p.key, name: p.name, class: "dup", keyOnly: r.Chance(1, 5)}
 		}
 		out = append(out, t)
@@ -629,6 +637,9 @@ func (k *kase) genStep(i int) *step {
 			n = 1 // composite keys: Delete() without targets renders "(a,b) IN (NULL)", not generated
 		}
 		ts := k.pickTargets(o, n, true, false, nil, false)
+		if len(ts) == 0 && s.composite {
+			return nil
+		}
 		st.args = k.splitArgs(ts, true)
 	}
 	// literal call
@@ -777,7 +788,13 @@ func (k *kase) checkState(st *step, eff *effect) []problem {
 			k.c.Inc("target_name_changed(not checked)")
 		}
 	}
-	for t, r := range recs {
+	var stored []string
+	for t := range recs {
+		stored = append(stored, t)
+	}
+	sort.Strings(stored)
+	for _, t := range stored {
+		r := recs[t]
 		if _, live := m.recs[t]; live {
 			continue
 		}
@@ -857,6 +874,7 @@ func (k *kase) run() {
 		if st != nil {
 			d["failed_call"] = st.call
 		}
+		c.Inc("deviation_" + sig)
 		c.Violation(sig, d)
 	}
 	// the seeded state itself must read back as the model
@@ -1103,6 +1121,9 @@ func (k *kase) sig(st *step, ps []problem, sn *snapshot, applied bool) string {
 		alt := &model{spec: s, links: cloneSets(sn.links)}
 		for i, ov := range st.owners {
 			for _, t := range append(sortedKeys(sn.mem[ov.ok]), argKeys(st, i)...) {
+				if k.m.soft[t] {
+					continue // a soft-deleted row gets its key column back but stays invisible
+				}
 				alt.link(ov.ok, t, &effect{})
 			}
 		}
@@ -1193,11 +1214,11 @@ var Engine = &core.Engine{
 	},
 	Cases: func(tier string) int {
 		if tier == "thorough" {
-			return 81 * 4000
+			return 81 * 2500
 		}
 		return 81 * 200
 	},
-	Batch:         func(tier string) int {
+	Batch: func(tier string) int {
 		if tier == "thorough" {
 			return 81 * 25
 		}
